@@ -7,3 +7,4 @@ import EtVerif.Props.C20
 #print axioms EtVerif.C20.flags_exact
 #print axioms EtVerif.C20.unusable_is_400
 #print axioms EtVerif.C20.unusable_records
+#print axioms EtVerif.C20.rat_eq_field
